@@ -20,6 +20,10 @@ def check(run):
     kv = '{"p1", "p2", "p3", "p4", "p5", "p6", "p7", "p8", "p9", "p10", "p12", "t1", "t2"}'
     plans = [dict(num=160, ops=18), dict(num=140, ops=20, txs=kv, maxb=8)] if quick else \
             [dict(num=1500, ops=18), dict(num=800, ops=26, maxb=9), dict(num=1000, ops=22, txs=kv, maxb=8), dict(num=400, ops=18, window=2)]
+    # the same transfers with non-canonical amount spellings (a leading zero byte; a zero amount as 0x00): what is applied
+    # and what is undone must not depend on the spelling
+    tokz = '{"t1", "t2", "t3", "t4", "t5", "t6", "t7", "t8", "x1", "p1"}'
+    plans.append(dict(num=50 if quick else 500, ops=18, txs=tokz, driver_args=["-enc", "lz"]))
     groups = xc.gen(run, plans)
     xc.replay_validate(run, groups)
     # the same statement for every node of a network of real engines: the projection of each node after every step
